@@ -1,6 +1,7 @@
 (* C18: soundness of the checker run on real compiler output (tie V), and the hash
    written by ComputeRetailHash verifies. *)
-From Coq Require Import List ZArith Bool Lia.
+From Coq Require Import List ZArith Bool Lia Permutation.
+From Coq Require String.
 Import ListNotations.
 Require Import Naga.Dxil.BitsModel Naga.Dxil.BitsProofs Naga.Dxil.BitstreamModel Naga.Dxil.BitstreamProofs Naga.Dxil.DxbcModel Naga.Dxil.DxbcProofs
                Naga.Dxil.Md5Model Naga.Dxil.MetaModel Naga.Dxil.MetaProofs Naga.Dxil.CheckModel.
@@ -103,3 +104,182 @@ Qed.
 Theorem bypass_hash_verifies : forall d ps, length d = 16%nat ->
   set_bypass_hash (build d ps) = build bypass_digest ps.
 Proof. intros. unfold set_bypass_hash. apply set_digest_build; [assumption | reflexivity]. Qed.
+
+
+(* ---- the element-level consistency rules of the interface parts (PSV0 vs itself, PSV0 vs
+   ISG1 / OSG1 / PSG1) mean what they say ---- *)
+
+Lemma key_eqb_eq : forall a b, key_eqb a b = true -> a = b.
+Proof.
+  intros [[[[a1 a2] a3] a4] a5] [[[[b1 b2] b3] b4] b5] H. unfold key_eqb in H.
+  repeat (apply andb_prop in H; destruct H as [H ?]).
+  repeat match goal with E : (_ =? _) = true |- _ => apply Z.eqb_eq in E end. congruence.
+Qed.
+
+Lemma remove_key_perm : forall k l l', remove_key k l = Some l' -> Permutation l (k :: l').
+Proof.
+  intros k l. induction l as [|x l IH]; intros l' H; cbn [remove_key] in H; [discriminate|].
+  destruct (key_eqb k x) eqn:E.
+  - apply key_eqb_eq in E. inversion H; subst. apply Permutation_refl.
+  - destruct (remove_key k l) as [r|] eqn:R; [|discriminate]. inversion H; subst.
+    eapply perm_trans; [apply perm_skip; apply IH; reflexivity|]. apply perm_swap.
+Qed.
+
+(* accepted = the two key lists are rearrangements of each other *)
+Lemma perm_check_sound : forall a b, perm_check a b = true -> Permutation a b.
+Proof.
+  induction a as [|k a IH]; intros b H; cbn [perm_check] in H.
+  - destruct b; [constructor | discriminate].
+  - destruct (remove_key k b) as [b'|] eqn:R; [|discriminate].
+    apply Permutation_sym. eapply perm_trans; [apply remove_key_perm; exact R|].
+    apply perm_skip. apply Permutation_sym. apply IH. exact H.
+Qed.
+
+Lemma max_top_nonneg : forall l, 0 <= max_top l.
+Proof. induction l as [|e l IH]; cbn [max_top fold_right]; [lia|]. fold (max_top l). lia. Qed.
+
+(* the vector count the rules demand is an upper bound of every element's top row ... *)
+Lemma max_top_upper : forall l e, In e l -> pe_top e <= max_top l.
+Proof.
+  induction l as [|x l IH]; intros e H; [contradiction|]. cbn [max_top fold_right]. fold (max_top l).
+  destruct H as [->|H]; [lia|]. specialize (IH e H). lia.
+Qed.
+
+(* ... and it is attained by an allocated element (or no row is used at all) *)
+Lemma max_top_attained : forall l, max_top l = 0 \/ exists e, In e l /\ pe_alloc e = true /\ pe_start_row e + pe_rows e = max_top l.
+Proof.
+  induction l as [|x l IH]; [left; reflexivity|]. cbn [max_top fold_right]. fold (max_top l).
+  pose proof (max_top_nonneg l) as Hn.
+  destruct (Z.max_spec (pe_top x) (max_top l)) as [[Hlt ->]|[Hge ->]].
+  - destruct IH as [IH|(e & Hin & Ha & He)]; [left; exact IH|]. right. exists e. split; [right; exact Hin|]. split; assumption.
+  - unfold pe_top in *. destruct (pe_alloc x) eqn:A.
+    + right. exists x. split; [left; reflexivity|]. split; [exact A | reflexivity].
+    + left. reflexivity.
+Qed.
+
+Lemma max_top_covers : forall l e, In e l -> pe_alloc e = true -> pe_start_row e + pe_rows e <= max_top l.
+Proof. intros l e Hin Ha. pose proof (max_top_upper l e Hin) as H. unfold pe_top in H. rewrite Ha in H. exact H. Qed.
+
+Lemma no_overlap_sound : forall l, no_overlap l = true -> ForallOrdPairs (fun a b => pe_overlap a b = false) l.
+Proof.
+  induction l as [|x l IH]; intros H; [constructor|]. cbn [no_overlap] in H. apply andb_prop in H. destruct H as [H1 H2].
+  constructor; [|apply IH; exact H2].
+  rewrite forallb_forall in H1. apply Forall_forall. intros y Hy. specialize (H1 y Hy). apply negb_true_iff in H1. exact H1.
+Qed.
+
+Lemma first_failed_none : forall l, first_failed l = None -> Forall (fun x : bool * String.string => fst x = true) l.
+Proof.
+  induction l as [|x l IH]; intros H; [constructor|]. cbn [first_failed fold_right] in H. fold (first_failed l) in H.
+  destruct (fst x) eqn:E; [|discriminate]. constructor; [exact E | apply IH; exact H].
+Qed.
+
+Lemma first_err_none : forall l, first_err l = None -> Forall (fun x : option String.string => x = None) l.
+Proof.
+  induction l as [|x l IH]; intros H; [constructor|]. cbn [first_err fold_right] in H. fold (first_err l) in H.
+  destruct x; [discriminate|]. constructor; [reflexivity | apply IH; exact H].
+Qed.
+
+(* what the rules establish about the signature elements PSV0 stores *)
+Record sig_consistent (s : psv_sigs) (isg osg : list sig_elem) (psg : option (list sig_elem)) : Prop := mkSigConsistent {
+  (* every element lies inside the rows / lanes / semantic index table it claims *)
+  sc_fits : Forall (fun e => pe_fits (ps_nsem s) e = true) (ps_ins s ++ ps_outs s ++ ps_patch s);
+  (* SigInputVectors = 1 + the highest row an allocated input element reaches (0 if none) *)
+  sc_vin : ps_vin s = max_top (ps_ins s);
+  sc_vin_covers : forall e, In e (ps_ins s) -> pe_alloc e = true -> pe_start_row e + pe_rows e <= ps_vin s;
+  sc_vin_tight : ps_vin s = 0 \/ exists e, In e (ps_ins s) /\ pe_alloc e = true /\ pe_start_row e + pe_rows e = ps_vin s;
+  (* SigOutputVectors[stream] likewise, per output stream *)
+  sc_vouts : Forall (fun p => snd p = max_top (on_stream (fst p) (ps_outs s))) (combine [0; 1; 2; 3] (ps_vouts s));
+  sc_vouts_cover : forall k v e, In (k, v) (combine [0; 1; 2; 3] (ps_vouts s)) -> In e (ps_outs s) -> pe_stream e = k ->
+                   pe_alloc e = true -> pe_start_row e + pe_rows e <= v;
+  (* no two allocated elements of a signature claim the same lane of the same row *)
+  sc_disjoint : ForallOrdPairs (fun a b => pe_overlap a b = false) (ps_ins s) /\
+                ForallOrdPairs (fun a b => pe_overlap a b = false) (ps_outs s) /\
+                ForallOrdPairs (fun a b => pe_overlap a b = false) (ps_patch s);
+  (* element for element (up to order) PSV0 and the signature parts agree on stream, register row,
+     component lanes, component type and semantic index *)
+  sc_isg : Permutation (map pe_key (ps_ins s)) (map se_key isg);
+  sc_osg : Permutation (map pe_key (ps_outs s)) (map se_key osg);
+  sc_psg : forall l, psg = Some l -> Permutation (map pe_key (ps_patch s)) (map se_key l)
+}.
+
+Lemma sig_rules_list_sound : forall s isg osg psg,
+  first_failed (sig_rules_list s isg osg psg) = None -> sig_consistent s isg osg psg.
+Proof.
+  intros s isg osg psg H. apply first_failed_none in H. unfold sig_rules_list in H.
+  repeat match goal with H : Forall _ (_ :: _) |- _ => inversion H; subst; clear H end.
+  cbn [fst] in *.
+  match goal with H : (ps_vin s =? _) = true |- _ => apply Z.eqb_eq in H; rename H into Hvin end.
+  match goal with H : vectors_ok _ _ = true |- _ => rename H into Hvo end.
+  match goal with H : forallb (pe_fits _) _ = true |- _ => rename H into Hfit end.
+  match goal with H : (_ && _ && _)%bool = true |- _ =>
+    apply andb_prop in H; destruct H as [H Hov3]; apply andb_prop in H; destruct H as [Hov1 Hov2] end.
+  assert (Hvouts : Forall (fun p => snd p = max_top (on_stream (fst p) (ps_outs s))) (combine [0; 1; 2; 3] (ps_vouts s))).
+  { unfold vectors_ok in Hvo. rewrite forallb_forall in Hvo. apply Forall_forall. intros p Hp. apply Z.eqb_eq. apply Hvo. exact Hp. }
+  constructor.
+  - rewrite forallb_forall in Hfit. apply Forall_forall. exact Hfit.
+  - exact Hvin.
+  - intros e Hin Ha. rewrite Hvin. apply max_top_covers; assumption.
+  - rewrite Hvin. apply max_top_attained.
+  - exact Hvouts.
+  - intros k v e Hkv Hin Hs Ha. rewrite Forall_forall in Hvouts. specialize (Hvouts (k, v) Hkv). cbn [fst snd] in Hvouts. subst v.
+    apply max_top_covers; [|exact Ha]. unfold on_stream. apply filter_In. split; [exact Hin|]. apply Z.eqb_eq. exact Hs.
+  - repeat split; apply no_overlap_sound; assumption.
+  - apply perm_check_sound. assumption.
+  - apply perm_check_sound. assumption.
+  - intros l ->. apply perm_check_sound. assumption.
+Qed.
+
+Definition psv_declares_elements (pv : list Z) : bool := 0 <? u8_at pv 32 + u8_at pv 33 + u8_at pv 34.
+
+Theorem sig_rules_sound : forall isg osg psg pv, sig_rules isg osg psg pv = None ->
+  (psv_declares_elements pv = true ->
+     sig_consistent (psv_sigs_of pv) (sig_part_elems isg) (sig_part_elems osg)
+                    (match psg with Some d => Some (sig_part_elems d) | None => None end)) /\
+  (psv_declares_elements pv = false ->
+     ps_vin (psv_sigs_of pv) = 0 /\ Forall (fun v => v = 0) (ps_vouts (psv_sigs_of pv))).
+Proof.
+  intros isg osg psg pv H. unfold sig_rules in H. unfold psv_declares_elements.
+  destruct (0 <? u8_at pv 32 + u8_at pv 33 + u8_at pv 34) eqn:E.
+  - split; [|discriminate]. intros _. apply sig_rules_list_sound. exact H.
+  - split; [discriminate|]. intros _.
+    destruct (forallb (Z.eqb 0) (ps_vin (psv_sigs_of pv) :: ps_vouts (psv_sigs_of pv))) eqn:F; [|discriminate].
+    cbn [forallb] in F. apply andb_prop in F. destruct F as [F1 F2]. apply Z.eqb_eq in F1. split; [congruence|].
+    rewrite forallb_forall in F2. apply Forall_forall. intros v Hv. specialize (F2 v Hv). apply Z.eqb_eq in F2. congruence.
+Qed.
+
+(* an accepted interface check: the three parts exist and the element rules hold between them *)
+Theorem sig_check_sound : forall ps kind, snd (sig_check ps kind) = None ->
+  exists pi po pv, find_part FourCC_ISG1 ps = Some pi /\ find_part FourCC_OSG1 ps = Some po /\ find_part FourCC_PSV0 ps = Some pv /\
+    sig_rules (p_data pi) (p_data po) (match find_part FourCC_PSG1 ps with Some pp => Some (p_data pp) | None => None end) (p_data pv) = None.
+Proof.
+  intros ps kind H. unfold sig_check in H.
+  destruct (find_part FourCC_ISG1 ps) as [pi|] eqn:F1; [|discriminate].
+  destruct (find_part FourCC_OSG1 ps) as [po|] eqn:F2; [|destruct (sig_part_check (p_data pi)); discriminate].
+  destruct (find_part FourCC_PSV0 ps) as [pv|] eqn:F3;
+    [|destruct (sig_part_check (p_data pi)); destruct (sig_part_check (p_data po)); discriminate].
+  destruct (sig_part_check (p_data pi)) as [nin ein]. destruct (sig_part_check (p_data po)) as [nout eout].
+  destruct (psv_part_check (p_data pv)) as [info epsv]. cbn [snd] in H.
+  apply first_err_none in H.
+  repeat match goal with H : Forall _ (_ :: _) |- _ => inversion H; subst; clear H end.
+  exists pi, po, pv. repeat split; try reflexivity. assumption.
+Qed.
+
+Theorem check_container_sig_sound : forall steps b r, check_container steps b = Some r -> snd (r_sig r) = None ->
+  exists d ps pi po pv,
+    parse b = Some (d, ps) /\ b = build d ps /\
+    find_part FourCC_ISG1 ps = Some pi /\ find_part FourCC_OSG1 ps = Some po /\ find_part FourCC_PSV0 ps = Some pv /\
+    let psg := match find_part FourCC_PSG1 ps with Some pp => Some (sig_part_elems (p_data pp)) | None => None end in
+    (psv_declares_elements (p_data pv) = true ->
+       sig_consistent (psv_sigs_of (p_data pv)) (sig_part_elems (p_data pi)) (sig_part_elems (p_data po)) psg) /\
+    (psv_declares_elements (p_data pv) = false ->
+       ps_vin (psv_sigs_of (p_data pv)) = 0 /\ Forall (fun v => v = 0) (ps_vouts (psv_sigs_of (p_data pv)))).
+Proof.
+  intros steps b r H Hs. unfold check_container in H.
+  destruct (parse b) as [[d ps]|] eqn:P; [|discriminate].
+  destruct (parse_sound b d ps P) as (Hb & _).
+  inversion H; subst r; clear H. cbn [r_sig] in Hs.
+  destruct (sig_check_sound _ _ Hs) as (pi & po & pv & F1 & F2 & F3 & R).
+  exists d, ps, pi, po, pv. repeat (split; [first [reflexivity | assumption]|]).
+  cbv zeta. destruct (sig_rules_sound _ _ _ _ R) as [A B].
+  destruct (find_part FourCC_PSG1 ps); split; assumption.
+Qed.
